@@ -61,6 +61,9 @@ def acls(tier):
     # both apply inside it (here: a %global catch-all reaches below 'c' inside 'a 2' only, never inside 'a 1')
     add("overlap-specific-nested-global", lambda: [ARule("a 2", [ARule("~", glob=True)]), ARule("a *", [ARule("c", [ARule("d")])])])
     add("overlap-specific-nested-global-2", lambda: [ARule("a 2", [ARule("d", glob=True)]), ARule("a *", [ARule("c *", [ARule("c")])])])
+    # a deletable rule next to a protected one, at top level and inside a block
+    add("mixed-cd-top", lambda: [ARule("a *"), ARule("b *", cant_delete=True)])
+    add("mixed-cd-nested", lambda: [ARule("a *", [ARule("c *"), ARule("d", cant_delete=True)])])
     # heads that merely begin with the letters of a negation word ('undo', 'no'): they are ordinary commands, and their
     # negated form is '<word> <row>'
     add("prefix-letters-leaf", lambda: [ARule("undoc *"), ARule("notify ~")])
